@@ -13,6 +13,7 @@ PROP = {
              "TestPolicyFoldThroughDispatcher runs runner.DispatchOnRequest over generated endpoint and global remedy lists (API-key authentication = header edits, fixed_response = early response or no-op, enabled/disabled). "
              "There a case is non-trivial when one header name is edited twice with different values, an answer follows other processors, or no-ops stand next to a modification"),
     "assumptions": [
+        "unit TestFoldWithSharedHeaderMaps: some actions of a generated sequence share one header map object with an earlier action of the same content (DataSanitation / TransformAPICall build their actions around the transaction's live header map); an action OBJECT is never used in two folds or twice in one, since every producer in the repository builds a fresh object per execution",
         "bodies are mostly short; one in six lies around the sizes at which buffers are usually cut (255 B ... 70000 B, ASCII or multi-byte)",
         "header names are HTTP tokens and values visible ASCII without CR/LF (the line-based header encoding cannot carry them and no producer emits them)",
         "the action-level units re-state the fold loop (getSPOEReqActions / getSPOERespActions / runOnRequest are unexported) from the exported methods EnsureRequestIsUpdated, ReqPrioritize, ReqToSpoeActions; the loops themselves are exercised by the two end-to-end units with the action kinds real processors / remedies produce (ModifyRequest, EarlyResponse, ModifyResponse, NoOp)",
@@ -22,6 +23,7 @@ PROP = {
     "units": [
         {"pkg": "c07", "test": "TestRequestFoldRandom", "quick": 20000, "thorough": 200000, "shards": 8},
         {"pkg": "c07", "test": "TestResponseFoldRandom", "quick": 20000, "thorough": 200000, "shards": 8},
+        {"pkg": "c07", "test": "TestFoldWithSharedHeaderMaps", "quick": 10000, "thorough": 100000, "shards": 8},
         {"pkg": "c07", "test": "TestRequestFoldExhaustive", "kind": "plain"},
         {"pkg": "c07", "test": "TestResponseFoldExhaustive", "kind": "plain"},
         {"pkg": "c07", "test": "TestFoldThroughGateway", "quick": 400, "thorough": 6000, "shards": 1},
